@@ -26,7 +26,7 @@ COMPONENTS = {"real": ["ECAgent.Core.Environment.add_agent / remove_agent", "Sys
                        "deregister_component / get_components / __getitem__", "Agent.add_component / remove_component",
                        "SpaceWorld / DiscreteWorld / LineWorld / GridWorld add_agent / remove_agent"],
               "stub": ["component classes and agents are harness-defined"]}
-PROBES = ["pool_deleted_and_recreated", "leave_from_middle", "two_models_same_type", "spatial_join_leave", "rejoin",
+PROBES = ["position_subclass_component", "pool_deleted_and_recreated", "leave_from_middle", "two_models_same_type", "spatial_join_leave", "rejoin",
           "attach_after_leaving", "subclass_component", "resident_touch_run", "manual_register", "reject_join", "reject_leave",
           "model_completed_then_join_leave", "falsy_component_emptied", "ops_from_inside_a_timestep", "agent_is_an_environment", "agent_class_with_class_components", "deprecated_camelcase_spelling", "component_cloned_from_a_registered_one", "second_environment_bound_to_the_same_model"]
 TECHNIQUE = "deterministic simulation: seeded join/leave/attach/detach histories interleaved over several live models vs a per-model mirror reference; known-finding classifier for resident attach/detach"
@@ -75,7 +75,13 @@ class CF(Component):
         return len(self.items)
 
 
-CT = [CA, CB, CC, CD, CE, CF]
+class CG(PositionComponent):
+    """A user component type that builds on the bundled PositionComponent (a waypoint, a home location): not the position a
+    spatial world manages - components are keyed by their exact class - and so listed like any other."""
+
+
+CT = [CA, CB, CC, CD, CE, CF, CG]
+NT = len(CT)
 
 
 class Wolf(Agent):
@@ -107,7 +113,7 @@ def generate(rng, tier):
     for mi in range(nm):
         for k in range(nag[mi]):
             if rng.random() < 0.7:
-                for t in rng.sample(range(6), rng.randint(0, 3)):
+                for t in rng.sample(range(NT), rng.randint(0, 3)):
                     ops.append({"m": mi, "op": "attach", "k": k, "t": t})
     for _ in range(rng.randint(10, 120 if tier == "thorough" else 70)):
         mi = rng.randrange(nm)
@@ -118,11 +124,11 @@ def generate(rng, tier):
         elif r < 0.5:
             ops.append({"m": mi, "op": "leave", "k": k})
         elif r < 0.65:
-            ops.append({"m": mi, "op": "attach", "k": k, "t": rng.randrange(6), "manual": rng.random() < 0.5, "clone": rng.random() < 0.3})
+            ops.append({"m": mi, "op": "attach", "k": k, "t": rng.randrange(NT), "manual": rng.random() < 0.5, "clone": rng.random() < 0.3})
         elif r < 0.77:
-            ops.append({"m": mi, "op": "detach", "k": k, "t": rng.randrange(6), "manual": rng.choice(["no", "before", "after"])})
+            ops.append({"m": mi, "op": "detach", "k": k, "t": rng.randrange(NT), "manual": rng.choice(["no", "before", "after"])})
         elif r < 0.9:
-            ops.append({"m": mi, "op": "query", "t": rng.randrange(6)})
+            ops.append({"m": mi, "op": "query", "t": rng.randrange(NT)})
         elif r < 0.93:
             ops.append({"m": mi, "op": "leave_ghost"})
         elif r < 0.955:
@@ -143,7 +149,7 @@ def generate(rng, tier):
             elif r < 0.8:
                 sub.append({"op": "join", "k": k, "frac": [rng.random() for _ in range(3)]})
             elif r < 0.9:
-                sub.append({"op": "query", "t": rng.randrange(6)})
+                sub.append({"op": "query", "t": rng.randrange(NT)})
             else:
                 sub.append({"op": rng.choice(["join_dup", "leave_ghost"]), "k": k})
         ops.insert(rng.randint(0, len(ops)), {"m": mi, "op": "instep", "sub": sub})
@@ -167,7 +173,7 @@ def generate(rng, tier):
         for _ in range(rng.randint(2, 8)):
             k = nag[mi] + rng.randrange(2)
             r = rng.random()
-            o_ = ({"m": mi, "op": "attach", "k": k, "t": rng.randrange(6)} if r < 0.3 else
+            o_ = ({"m": mi, "op": "attach", "k": k, "t": rng.randrange(NT)} if r < 0.3 else
                   {"m": mi, "op": "join", "k": k, "frac": [0.5, 0.5, 0.5]} if r < 0.7 else {"m": mi, "op": "leave", "k": k})
             ops.insert(rng.randint(0, len(ops)), o_)
     return {"worlds": worlds, "agents": nag, "touch": touch, "ops": ops, "envagents": envagents, "wolves": wolves,
@@ -308,7 +314,7 @@ def execute(sc, ctx):
             k = op["k"] % len(mm.agents)
             a = mm.agents[k]
         if kind == "attach":
-            T = CT[op["t"] % 6]
+            T = CT[op["t"] % NT]
             resident = k in mm.residents
             if T in a.components:
                 return
@@ -325,6 +331,8 @@ def execute(sc, ctx):
             ctx.expect_ok("attach", a.add_component, c)
             if T is CD:
                 ctx.probe("subclass_component")
+            if T is CG:
+                ctx.probe("position_subclass_component")
             if resident:
                 touched.add(id(c))
                 touched_agents.add(a.id)
@@ -336,7 +344,7 @@ def execute(sc, ctx):
                 ctx.probe("attach_after_leaving")
             ctx.event("attach", mi, k, T.__name__, resident, bool(op.get("manual")))
         elif kind == "detach":
-            T = CT[op["t"] % 6]
+            T = CT[op["t"] % NT]
             resident = k in mm.residents
             if T not in a.components:
                 return
